@@ -39,7 +39,6 @@ Inductive codec :=
 | CCustom (k : Z) (c : codec).
 
 (* ---- kinds ---- *)
-Definition is_u8 (t : gtype) : bool := match underlying t with TInt U8 => true | _ => false end.
 
 Definition find_field (name : ident) (fields : list gfield) : option (nat * gfield) :=
   (fix go (l : list gfield) (i : nat) (found : option (nat * gfield)) {struct l} :=
